@@ -38,6 +38,16 @@ type graphCase struct {
 	Probe  string     `json:"probe,omitempty"`  // extra statements appended to main
 	Files  bool       `json:"files,omitempty"`  // real directory tree + LoadFile instead of the in-memory finder
 	Expect string     `json:"expect,omitempty"` // for probes: "ok:<trace suffix>" | "error"
+	Bare   []int      `json:"bare,omitempty"`   // modules (0 = main) whose file holds 导入 lines only
+}
+
+func (c *graphCase) bare(i int) bool {
+	for _, b := range c.Bare {
+		if b == i {
+			return true
+		}
+	}
+	return false
 }
 
 func replay(sub string, raw json.RawMessage) ([]h.Failure, error) {
@@ -70,12 +80,20 @@ func moduleSource(c *graphCase, i int) string {
 		}
 		b.WriteString("\n")
 	}
+	if c.bare(i) {
+		// nothing but imports (a comment and a blank line are no statements)
+		b.WriteString("注：本文件只有导入\n\n")
+		return b.String()
+	}
 	if i == 0 {
 		b.WriteString("（显示：“run-main”）\n")
 		// call the second method (which uses its sibling and its module's type) of every
 		// module imported as a whole
 		for k, j := range c.Edges[0] {
 			if len(c.Select) > 0 && len(c.Select[0]) > k && c.Select[0][k] != "" {
+				continue
+			}
+			if c.bare(j) {
 				continue
 			}
 			b.WriteString("（显示：“call”、（" + fnName(c.Names[j], 2) + "））\n")
@@ -253,12 +271,17 @@ func checkGraph(c *graphCase) []h.Failure {
 		if o.Kind != h.KError {
 			return []h.Failure{{Sig: "modules/probe-error-expected", Msg: fmt.Sprintf("%s\nthe probe must fail; got %s\ntrace: %v", desc, o.Short(), o.Trace)}}
 		}
+	} else if c.bare(0) && o.Kind == h.KValue && o.ValType != "null" {
+		return []h.Failure{{Sig: "modules/import-only-main-value", Msg: fmt.Sprintf("%s\na main file of imports only yields 空; got %s", desc, o.Short())}}
 	} else if o.Kind != h.KValue {
 		return []h.Failure{{Sig: "modules/unexpected-error", Msg: fmt.Sprintf("%s\nacyclic graph: expected a normal run, got %s\n%s\ntrace: %v", desc, o.Short(), o.Display, o.Trace)}}
 	}
 	// (1) each reachable module body exactly once, unreachable never
 	for i := 1; i < len(c.Names); i++ {
 		n := count[c.Names[i]]
+		if c.bare(i) {
+			continue // displays nothing
+		}
 		if reachable[i] && n != 1 {
 			return []h.Failure{{Sig: "modules/reachable-body-not-run", Msg: fmt.Sprintf("%s\nmodule %s is imported (transitively) but its body ran %d times\ntrace: %v", desc, c.Names[i], n, o.Trace)}}
 		}
@@ -275,7 +298,28 @@ func checkGraph(c *graphCase) []h.Failure {
 		if i > 0 {
 			in = c.Names[i]
 		}
-		for _, j := range c.Edges[i] {
+		if c.bare(i) {
+			continue
+		}
+		// (what an import-only module imports counts as imported by its importers)
+		var deps []int
+		seen := map[int]bool{}
+		var through func(u int)
+		through = func(u int) {
+			for _, j := range c.Edges[u] {
+				if seen[j] {
+					continue
+				}
+				seen[j] = true
+				if c.bare(j) {
+					through(j)
+				} else {
+					deps = append(deps, j)
+				}
+			}
+		}
+		through(i)
+		for _, j := range deps {
 			if pos[c.Names[j]] > pos[in] {
 				return []h.Failure{{Sig: "modules/importer-ran-first", Msg: fmt.Sprintf("%s\n%s imports %s, but %s's body ran after %s's statements started\ntrace: %v", desc, in, c.Names[j], c.Names[j], in, o.Trace)}}
 			}
@@ -285,6 +329,9 @@ func checkGraph(c *graphCase) []h.Failure {
 	var wantCalls []string
 	for k, j := range c.Edges[0] {
 		if len(c.Select) > 0 && len(c.Select[0]) > k && c.Select[0][k] != "" {
+			continue
+		}
+		if c.bare(j) || c.bare(0) {
 			continue
 		}
 		wantCalls = append(wantCalls, fmt.Sprintf("call [%s-1，%s-obj]", c.Names[j], c.Names[j]))
@@ -427,8 +474,34 @@ func TestRandomGraphs(t *testing.T) {
 		c.Files = rapid.IntRange(0, 9).Draw(t, "files") == 0
 		labels, nt := labelsOf(c)
 		_, cyclic := reach(c)
+		// files that hold nothing but 导入 lines: their imports are loaded (and cycles through
+		// them reported) all the same. The module the probes below use keeps its body
+		if rapid.IntRange(0, 3).Draw(t, "anybare") == 0 {
+			for i := 0; i <= k; i++ {
+				if len(c.Edges[i]) == 0 || (len(c.Edges[0]) > 0 && i == c.Edges[0][0]) {
+					continue
+				}
+				if rapid.IntRange(0, 2).Draw(t, "bare") == 0 {
+					c.Bare = append(c.Bare, i)
+				}
+			}
+			for i := range c.Edges {
+				for e, j := range c.Edges[i] {
+					if c.bare(j) {
+						c.Select[i][e] = "" // it exports nothing that could be listed
+					}
+				}
+			}
+			if len(c.Bare) > 0 {
+				labels = append(labels, "import-only-file")
+				nt = true
+				if c.bare(0) {
+					labels = append(labels, "import-only-main")
+				}
+			}
+		}
 		// probes on acyclic graphs with at least one import in main
-		if !cyclic && len(c.Edges[0]) > 0 {
+		if !cyclic && len(c.Edges[0]) > 0 && !c.bare(0) {
 			m := c.Names[c.Edges[0][0]]
 			dup := false
 			for _, j := range c.Edges[0][1:] {
@@ -436,7 +509,20 @@ func TestRandomGraphs(t *testing.T) {
 					dup = true
 				}
 			}
-			switch rapid.IntRange(0, 14).Draw(t, "probe") {
+			switch rapid.IntRange(0, 16).Draw(t, "probe") {
+			case 15, 16: // an imported method reached through another name (a variable, an input of a
+				// method of main) still behaves as inside its own module: it finds its sibling
+				// method and its module's type although main imported neither
+				if !dup {
+					c.Select[0][0] = fnName(m, 2)
+					if rapid.Bool().Draw(t, "via-input") {
+						c.Probe = "如何转手？\n    输入某法\n    输出（某法）\n（显示：“alias”、（转手：" + fnName(m, 2) + "））\n"
+					} else {
+						c.Probe = "令别名 = " + fnName(m, 2) + "\n（显示：“alias”、（别名））\n"
+					}
+					c.Expect = "ok:alias [" + m + "-1，" + m + "-obj]"
+					labels = append(labels, "probe:imported-method-through-another-name")
+				}
 			case 0: // assignment to an imported name
 				c.Probe = fnName(m, 1) + " = 5\n"
 				c.Expect = "error"
@@ -625,9 +711,14 @@ func TestMissing(t *testing.T) {
 		{"导入“不存在”\n输出1", "missing module"},
 		{"导入《@不存在库》\n输出1", "missing library"},
 		{"导入“甲-不存在”\n输出1", "missing nested module"},
+		{"导入“不存在”\n", "missing module, main file of imports only"},
+		{"导入《@不存在库》\n注：仅此", "missing library, main file of imports only"},
+		{"导入“乙”\n输出1", "missing module behind a module of imports only"},
+		{"导入“丙”\n输出1", "missing library behind a module of imports only"},
+		{"导入“乙”", "missing module behind a module of imports only, main of imports only"},
 	}
 	for _, cs := range cases {
-		o := h.Run(cs.src, h.Opts{Modules: map[string]string{"甲": "（显示：1）"}})
+		o := h.Run(cs.src, h.Opts{Modules: map[string]string{"甲": "（显示：1）", "乙": "导入“不存在”\n注：只有导入", "丙": "导入《@不存在库》\n"}})
 		var fails []h.Failure
 		if o.Kind != h.KError {
 			fails = append(fails, h.Failure{Sig: "modules/missing-accepted", Msg: fmt.Sprintf("%s: %q must be an error, got %s", cs.what, cs.src, o.Short())})
